@@ -5,6 +5,7 @@ CONSTANTS
   MaxSteps = 6
   FixPrune = FALSE
   FixRestart = FALSE
+  PruneOutsideLock = FALSE
   Hist = FALSE
   Atomic = FALSE
   Ops <- Ops_all
